@@ -112,6 +112,10 @@ func writeOK(bg *Writer, c *compressor) bool {
 	}
 
 	_, err := io.Copy(bg.w, &c.buf)
+	if err != nil {
+		// Record the error before releasing waiters.
+		bg.setErr(err)
+	}
 	bg.qwg.Done()
 	if err != nil {
 		bg.setErr(err)
